@@ -106,13 +106,25 @@ Proof.
   - (* CBegin *)
     destruct (dget t (g_calls g)) as [k0|]; [cbv beta iota; cbn [expired_ids got_ids app]; split; [unfold GI; auto|intros x []]|].
     destruct o as [m|r].
-    + (* put: only a new sweep *)
-      cbn [expired_ids got_ids app]. split; [|intros x []].
-      unfold GI. cbn [g_corr g_calls g_next]. split; [exact Httl|]. split; [exact Hnd|]. split; [exact Hcnt|].
-      intros t' k' Hin. apply dset_In in Hin as [E|Hin].
-      * injection E as _ ->. cbn [k_bound k_sweep sweep_start sw_keys sw_now]. split; [lia|].
-        intros key e He _ _. eapply In_dkeys; eauto.
-      * apply (Hsw t' k' Hin).
+    + (* put: stores a fresh entry, then a new sweep over everything *)
+      pose proof (put_store_frame (g_corr g) now m (g_next g)) as [Hps Hpt].
+      cbn [expired_ids got_ids app]. split; [|intros x [E|[]]; discriminate].
+      unfold GI. cbn [g_corr g_calls g_next]. split; [congruence|]. rewrite Hps.
+      split; [apply dkeys_dset_NoDup; exact Hnd|]. split.
+      * intros x. specialize (Hcnt x).
+        pose proof (dcount_dset e_id x (sm_seq m) {| e_at := now; e_msg := m; e_id := g_next g |} (c_store (g_corr g))) as Hd.
+        cbn [e_id] in Hd. destruct (Z.eq_dec (g_next g) x) as [<-|Hne]; [|split; lia].
+        destruct Hcnt as [H1 H2].
+        assert ((dcount e_id (g_next g) (c_store (g_corr g)) + cntl (g_next g) EX + cntl (g_next g) GOT = 0)%nat) as Hz.
+        { destruct (dcount e_id (g_next g) (c_store (g_corr g)) + cntl (g_next g) EX + cntl (g_next g) GOT)%nat eqn:E0; [reflexivity|].
+          assert (g_next g < g_next g) by (apply H2; lia). lia. }
+        split; lia.
+      * intros t' k' Hin. apply dset_In in Hin as [E|Hin].
+        -- injection E as _ ->. cbn [k_bound k_sweep sweep_start sw_keys sw_now]. rewrite Hps. split; [lia|].
+           intros key e He _ _. eapply In_dkeys; eauto.
+        -- destruct (Hsw t' k' Hin) as [Hb Hk]. split; [lia|].
+           intros key e He Hlt Ho. apply dset_In in He as [E|He]; [|apply (Hk key e He Hlt Ho)].
+           injection E as _ ->. cbn [e_id] in Hlt. lia.
     + (* get: pop, then a new sweep *)
       pose proof (get_pop_frame (g_corr g) r) as [Hf1 Hf2].
       destruct (get_pop (g_corr g) r) as [c1 oe] eqn:Egp. cbn [fst snd] in Hf1, Hf2.
@@ -189,26 +201,9 @@ Proof.
   - (* CFinish *)
     destruct (dget t (g_calls g)) as [k|] eqn:Ek; [|cbv beta iota; cbn [expired_ids got_ids app]; split; [unfold GI; auto|intros x []]].
     destruct (sw_keys (k_sweep k)) as [|k0 ks]; [|cbv beta iota; cbn [expired_ids got_ids app]; split; [unfold GI; auto|intros x []]].
-    destruct (k_op k) as [m|r].
-    + (* put stores a fresh entry *)
-      pose proof (put_store_frame (g_corr g) now m (g_next g)) as [Hps Hpt].
-      cbn [expired_ids got_ids app]. split; [|intros x [E|[]]; discriminate].
-      unfold GI. cbn [g_corr g_calls g_next]. split; [congruence|]. rewrite Hps.
-      split; [apply dkeys_dset_NoDup; exact Hnd|]. split.
-      * intros x. specialize (Hcnt x).
-        pose proof (dcount_dset e_id x (sm_seq m) {| e_at := now; e_msg := m; e_id := g_next g |} (c_store (g_corr g))) as Hd.
-        cbn [e_id] in Hd. destruct (Z.eq_dec (g_next g) x) as [<-|Hne]; [|split; lia].
-        destruct Hcnt as [H1 H2].
-        assert ((dcount e_id (g_next g) (c_store (g_corr g)) + cntl (g_next g) EX + cntl (g_next g) GOT = 0)%nat) as Hz.
-        { destruct (dcount e_id (g_next g) (c_store (g_corr g)) + cntl (g_next g) EX + cntl (g_next g) GOT)%nat eqn:E0; [reflexivity|].
-          assert (g_next g < g_next g) by (apply H2; lia). lia. }
-        split; lia.
-      * intros t' k' Hin. apply ddel_subset in Hin. destruct (Hsw t' k' Hin) as [Hb Hk]. split; [lia|].
-        intros key e He Hlt Ho. apply dset_In in He as [E|He]; [|apply (Hk key e He Hlt Ho)].
-        injection E as _ ->. cbn [e_id] in Hlt. lia.
-    + cbn [expired_ids got_ids app]. split; [|intros x []].
-      unfold GI. cbn [g_corr g_calls g_next]. split; [exact Httl|]. split; [exact Hnd|]. split; [exact Hcnt|].
-      intros t' k' Hin. apply ddel_subset in Hin. apply (Hsw t' k' Hin).
+    cbn [expired_ids got_ids app]. split; [|intros x []].
+    unfold GI. cbn [g_corr g_calls g_next]. split; [exact Httl|]. split; [exact Hnd|]. split; [exact Hcnt|].
+    intros t' k' Hin. apply ddel_subset in Hin. apply (Hsw t' k' Hin).
 Qed.
 
 Lemma grun_GI ttl evs : forall g EX GOT,
@@ -288,4 +283,15 @@ Proof.
   pose proof (expired_plain (with_store c (ddel k (c_store c))) (e_msg e)) as Hp.
   destruct (expired (with_store c (ddel k (c_store c))) (e_msg e)) as [c2 call]. cbn [snd with_store c_seg] in Hp.
   intros H. injection H as _ _ <-. cbn [so_entry so_call]. intros H1 H2. apply Hp; assumption.
+Qed.
+
+(* (d) at the level of the correlator: the request is in the store from the first atomic piece of put() on - before the sweep
+   of that call (which may suspend in the application's hook) has run at all *)
+Theorem put_visible_at_once g t m now :
+  dget t (g_calls g) = None ->
+  dget (sm_seq m) (c_store (g_corr (fst (gstep g (CBegin t (OpPut m) now)))))
+  = Some {| e_at := now; e_msg := m; e_id := g_next g |}.
+Proof.
+  intros Hn. cbn [gstep]. rewrite Hn. cbn [fst g_corr].
+  destruct (put_store_frame (g_corr g) now m (g_next g)) as [-> _]. apply dget_dset_same.
 Qed.
